@@ -7,7 +7,7 @@ from ..spec import build, build_timegrid
 from ..canon import Snap, problem_diff
 
 PROPERTY = 'C10'
-CASES = {'quick': 132, 'thorough': 2500}
+CASES = {'quick': 396, 'thorough': 3168}
 BUDGET_S = {'quick': 240, 'thorough': 2400}
 RULE = ('case = one spec (portfolio with interval dictionaries in naive dates, implicit ends, DatetimeIndex/array forms, dictionaries shared between '
         'two assets, takes, CHP/Plant, structured/scaled wrappers, coarse and periodic assets) built ONCE, then a history of 2-5 (thorough: up to 8) '
@@ -18,7 +18,7 @@ RULE = ('case = one spec (portfolio with interval dictionaries in naive dates, i
         'the probe where the fresh call succeeds is a violation. Non-trivial: >=2 history operations executed; distinct = (spec, history) hashes.')
 ASSUMPTIONS = ['mutation of user dictionaries is logged as advisory unless it changes or breaks a later call (as the property states)',
                'history operations may themselves fail on domain errors (e.g. capacity dictionary not covering the other grid): that is part of the history']
-MIN_NONVACUOUS = {'quick': {'purity.same_problem_as_fresh': 100, 'purity.probe_does_not_raise': 100},
+MIN_NONVACUOUS = {'quick': {'purity.same_problem_as_fresh': 250, 'purity.probe_does_not_raise': 250},
                   'thorough': {'purity.same_problem_as_fresh': 2000}}
 OPS = ['setup_other', 'setup_other', 'costs_only', 'set_timegrid_none', 'optimize_extract', 'to_json', 'split', 'second_portfolio', 'structured_reuse',
        'asset_alone', 'failing_call', 'same_grid_other_prices', 'setup_other_tz']
